@@ -78,11 +78,11 @@ fn ascii<const N: usize>() -> String {
     }
     unsafe { String::from_utf8_unchecked(a.to_vec()) }
 }
-rt!(c25_o4_t_rt_create_label_0, 15, 9, [l: u32], WalRecord::CreateLabel { name: String::new(), label_id: l },
+rt!(c25_o4_a_rt_create_label_0, 15, 9, [l: u32], WalRecord::CreateLabel { name: String::new(), label_id: l },
     WalRecord::CreateLabel { name, label_id } => name.is_empty() && *label_id == l);
-rt!(c25_o4_t_rt_create_label_1, 15, 10, [l: u32, c: u8], WalRecord::CreateLabel { name: { kani::assume(c < 0x80); unsafe { String::from_utf8_unchecked(vec![c]) } }, label_id: l },
+rt!(c25_o4_a_rt_create_label_1, 15, 10, [l: u32, c: u8], WalRecord::CreateLabel { name: { kani::assume(c < 0x80); unsafe { String::from_utf8_unchecked(vec![c]) } }, label_id: l },
     WalRecord::CreateLabel { name, label_id } => name.len() == 1 && name.as_bytes()[0] == c && *label_id == l);
-rt!(c25_o4_t_rt_remove_node_prop_1, 13, 10, [n: u32, c: u8], WalRecord::RemoveNodeProperty { node: n, key: { kani::assume(c < 0x80); unsafe { String::from_utf8_unchecked(vec![c]) } } },
+rt!(c25_o4_a_rt_remove_node_prop_1, 13, 10, [n: u32, c: u8], WalRecord::RemoveNodeProperty { node: n, key: { kani::assume(c < 0x80); unsafe { String::from_utf8_unchecked(vec![c]) } } },
     WalRecord::RemoveNodeProperty { node, key } => *node == n && key.len() == 1 && key.as_bytes()[0] == c);
 rt!(c25_o4_a_rt_set_node_prop_int, 11, 19, [n: u32, c: u8, v: i64],
     WalRecord::SetNodeProperty { node: n, key: { kani::assume(c < 0x80); unsafe { String::from_utf8_unchecked(vec![c]) } }, value: PropertyValue::Int(v) },
